@@ -513,7 +513,7 @@ class Graph:
             fk, fv = self.raw_or_node(n["f"])
             args = [self.raw_or_node(a) for a in n.get("args", [])]
             kw = [(name, self.raw_or_node(a)) for name, a in n.get("kw", [])]
-            if k == "funapp" and not args and kw and fk == "raw" and nid % 2 == 0 and not n.get("factory"):
+            if k == "funapp" and not args and kw and fk == "raw" and (nid % 2 == 0 or n.get("lift")) and not n.get("factory"):
                 # `FunctionApplication.lift(g, **overrides)`: g has named parameters with defaults of its own, every
                 # one of them overridden by a keyword (plain constants — falsy ones included — or evaluatables)
                 names = [name for name, _ in kw]
